@@ -414,17 +414,22 @@ func (c *Client) execLoop(ctx context.Context) error {
 			// current events in the queue that should be processed, as one
 			// may want to handle an ERROR, QUIT, etc.
 			c.debug.Printf("received signal to close, flushing %d events and executing", len(c.rx))
+			var err error
 			for {
 				select {
 				case event = <-c.rx:
 					c.RunHandlers(event)
+
+					if err == nil && event != nil && event.Command == ERROR {
+						err = &ErrEvent{Event: event}
+					}
 				default:
 					goto done
 				}
 			}
 
 		done:
-			return nil
+			return err
 		case event = <-c.rx:
 			c.RunHandlers(event)
 
